@@ -3,6 +3,7 @@ package main
 // Evaluation of contract expressions in a symbolic state.
 
 import (
+	"os"
 	"fmt"
 	"go/constant"
 	"go/token"
@@ -508,6 +509,18 @@ func (ev *Eval) ident(name string) *Value {
 		for _, b := range ev.fn.Blocks {
 			for _, ins := range b.Instrs {
 				if a, ok := ins.(*ssa.Alloc); ok && a.Comment == name {
+					if os.Getenv("GOVC_DEBUG") == "ident" {
+						fmt.Fprintf(os.Stderr, "DEBUG ident %s falls back to zero (heap=%v frame=%v mode=%d)\n", name, a.Heap, ev.st.frame != nil, ev.mode)
+						if ev.st.frame != nil {
+							fmt.Fprintf(os.Stderr, "   frame fn=%s top=%s regs:", funcRef(ev.st.frame.fn), funcRef(ev.v.top))
+							for reg := range ev.st.frame.regs {
+								if al, ok := reg.(*ssa.Alloc); ok {
+									fmt.Fprintf(os.Stderr, " %s/%s/%v", al.Name(), al.Comment, al.Heap)
+								}
+							}
+							fmt.Fprintln(os.Stderr)
+						}
+					}
 					return zeroValue(a.Type().(*types.Pointer).Elem())
 				}
 			}
